@@ -8,6 +8,16 @@ ROOT = os.path.dirname(os.path.dirname(os.path.abspath(__file__)))
 props = [json.loads(l) for l in open(os.path.join(ROOT, "properties.jsonl"))]
 
 CHECKS = {
+    "C17": dict(
+        text="Index.tla defines the allowed answers (Answers / Listed / Total / Retains per index mode). MCIndex.tla "
+             "enumerates every collection of <= 2 (quick) / 3 (thorough) pack listings with duplicates, both blob types, "
+             "marked and empty packs and re-listed packs; each collection is built in the real in-memory index (cfg-gated "
+             "constructor, all three modes) and as real index files opened through the public path; every query's answer is "
+             "validated by TLC (IndexTrace.tla), plus large seeded random collections.",
+        note="Mixed-type packs are out of scope (not produced by rustic, not named by the property). The ids-only mode is "
+             "queried through the hook only (no public query API).",
+        technique="TLC-enumerated configurations replayed into the real index + TLC validation of every query answer",
+        design="4/C17"),
     "C08": dict(
         text="Every pack write and index write observed in real runs of backup, prune (fast and re-encoding repack), merge, "
              "rewrite and repair is decoded by an independent parser and checked, as step obligations of RepoTrace.tla, for "
